@@ -250,7 +250,12 @@ func (h *Handler) Handle(req, resp dhcpv6.DHCPv6) (dhcpv6.DHCPv6, bool) {
 			}
 
 			addPrefix(iapdResp, l)
-			newLeases = append(knownLeases, l)
+			if newLeases == nil {
+				// Copy, so that appending never writes into the array backing Records
+				newLeases = append([]lease(nil), knownLeases...)
+			}
+			// Remember every lease given out, not only the last one of this IA_PD
+			newLeases = append(newLeases, l)
 			log.Debugf("Allocated %s to %s (IAID: %x)", &allocated, client, iapd.IaId)
 		}
 
